@@ -3,7 +3,7 @@
 # Patches were made against an older HEAD: use 3-way apply.
 P="$1"; shift
 cd /repo || exit 2
-if ! git apply --3way --whitespace=nowarn "$P" 2>/tmp/mutest_apply.err; then echo "APPLY-FAILED $(head -3 /tmp/mutest_apply.err | tr '\n' ' ')"; git checkout -- . ; git reset -q; exit 3; fi
+if ! git apply --3way --whitespace=nowarn "$P" 2>/tmp/mutest_apply.err; then echo "APPLY-FAILED $(head -3 /tmp/mutest_apply.err | tr '\n' ' ')"; git reset -q; git checkout -- . ; exit 3; fi
 git reset -q
 # the evidence files describe the unchanged tree: keep them out of the way while a changed tree is checked
 EVB=$(mktemp -d /tmp/mutest_evidence.XXXXXX); cp -a /verif/evidence/. "$EVB"/ 2>/dev/null
